@@ -984,4 +984,99 @@ theorem FInv.run {s : St} (h : FInv s) (v : Variant) : ∀ ops : List Op, FInv (
   | nil => exact h
   | cons op rest ih => exact ih (h.exec v op)
 
+/-! ### destruction in any order (helpers of `Props/C17.lean: destroy_any_order` and of `Spec/C17.lean`) -/
+
+def isDestroy : Op → Bool
+  | .destroySock _ | .destroyDriver _ | .dropTodo _ => true
+  | _ => false
+
+theorem legalFrom_append (v : Variant) (s : St) (a b : List Op) :
+    legalFrom v s (a ++ b) = (legalFrom v s a && legalFrom v (run v s a) b) := by
+  induction a generalizing s with
+  | nil => simp [legalFrom, run]
+  | cons op rest ih => simp [legalFrom, run, ih, Bool.and_assoc]
+
+theorem run_append (v : Variant) (s : St) (a b : List Op) : run v s (a ++ b) = run v (run v s a) b := by
+  induction a generalizing s with
+  | nil => rfl
+  | cons op rest ih => simp [run, ih]
+
+theorem destroySockObj_other (s : St) (i : Nat) :
+    (∀ j, j ≠ i → (s.destroySockObj i).sock j = s.sock j) ∧
+    (∀ d, ((s.destroySockObj i).drv d).alive = (s.drv d).alive) ∧ (s.destroySockObj i).todo = s.todo := by
+  unfold St.destroySockObj
+  simp only
+  refine ⟨?_, ?_, ?_⟩
+  · intro j hj
+    rw [setSock_other _ _ hj]
+    split <;> split <;> split <;> rfl
+  · intro d
+    show ((St.setSock _ i _).drv d).alive = _
+    split <;> split <;> split <;> first
+      | rfl
+      | (simp only [St.fail, St.setSock, St.setDrv]
+         by_cases hd : d = (s.sock i).drv
+         · subst hd; simp [Drv.unregister]
+         · simp [hd])
+  · split <;> split <;> split <;> rfl
+
+/-- a destroy operation does not take away the legality of a different destroy operation -/
+theorem destroy_preserves_legal (s : St) (op op' : Op) (hne : op ≠ op') (hd : isDestroy op = true) (hd' : isDestroy op' = true)
+    (hl : legalOp s op' = true) : legalOp (exec .fixed s op) op' = true := by
+  unfold Lifecycle.exec
+  split
+  · exact hl
+  · cases op with
+    | destroySock i =>
+      simp only
+      split
+      · exact hl
+      · obtain ⟨h1, h2, h3⟩ := destroySockObj_other s i
+        cases op' with
+        | destroySock j =>
+          have hji : j ≠ i := fun e => hne (by rw [e])
+          simp only [legalOp] at hl ⊢
+          rw [h1 j hji]; exact hl
+        | destroyDriver d => simp only [legalOp] at hl ⊢; rw [h2 d]; exact hl
+        | dropTodo t => simp only [legalOp] at hl ⊢; rw [h3]; exact hl
+        | _ => cases hd'
+    | destroyDriver d =>
+      simp only
+      split
+      · exact hl
+      · cases op' with
+        | destroySock j => exact hl
+        | destroyDriver d' =>
+          have hdd : d' ≠ d := fun e => hne (by rw [e])
+          simp only [legalOp] at hl ⊢
+          rw [setDrv_other _ _ hdd]; exact hl
+        | dropTodo t => exact hl
+        | _ => cases hd'
+    | dropTodo t =>
+      simp only
+      split
+      · exact hl
+      · cases op' with
+        | destroySock j => exact hl
+        | destroyDriver d' => exact hl
+        | dropTodo t' =>
+          have htt : t' ≠ t := fun e => hne (by rw [e])
+          simp only [legalOp, St.setTodo] at hl ⊢
+          simp only [htt, ↓reduceIte]; exact hl
+        | _ => cases hd'
+    | _ => cases hd
+
+theorem legalFrom_destroy_tail : ∀ (tail : List Op) (s : St), tail.Nodup → (∀ op ∈ tail, isDestroy op = true) →
+    (∀ op ∈ tail, legalOp s op = true) → legalFrom .fixed s tail = true := by
+  intro tail
+  induction tail with
+  | nil => intro _ _ _ _; rfl
+  | cons op rest ih =>
+    intro s hnd hk hl
+    simp only [legalFrom, Bool.and_eq_true]
+    refine ⟨hl op (by simp), ih _ (List.nodup_cons.mp hnd).2 (fun o ho => hk o (by simp [ho])) ?_⟩
+    intro o ho
+    have hne : op ≠ o := fun e => (List.nodup_cons.mp hnd).1 (e ▸ ho)
+    exact destroy_preserves_legal s op o hne (hk op (by simp)) (hk o (by simp [ho])) (hl o (by simp [ho]))
+
 end SockModel.Lifecycle
